@@ -1,20 +1,10 @@
 (* Real-number lemmas for M_plane_xsect.v (C14). *)
 From Coq Require Import ZArith Reals Lra Psatz List Bool Sorted Lia.
 From PW Require Import Num NumR Vec NpList TraceTac.
-From PW.model Require Import M_plane M_polyline_base M_plane_xsect.
+From PW.model Require Import M_plane M_polyline_base M_plane_xsect M_plane_xsect_spec.
 From PW.proofs Require Import P_vec P_nplist P_plane.
 Import ListNotations.
 Local Open Scope R_scope.
-
-Notation sd := (plane_sd ROps).
-
-(* the point a + t (b - a) of the segment / line through a and b *)
-Definition seg_at (a b : vec3 R) (t : R) : vec3 R := vadd ROps a (vscale ROps t (vsub ROps b a)).
-(* the point pt + s ray of a line *)
-Definition line_at (pt ray : vec3 R) (s : R) : vec3 R := vadd ROps pt (vscale ROps s ray).
-(* where the segment a b meets the plane when the distances of its ends differ *)
-Definition crossing (pl : plane R) (a b : vec3 R) : vec3 R := seg_at a b (sd pl a / (sd pl a - sd pl b)).
-Definition is_some {A} (o : option A) : bool := match o with Some _ => true | None => false end.
 
 Ltac dpl pl := destruct pl as [[r1 r2 r3] [n1 n2 n3]].
 Ltac dv3 a a1 a2 a3 := destruct a as [a1 a2 a3].
@@ -192,9 +182,6 @@ Proof.
   destruct (out_of_bounds ROps p a b); reflexivity.
 Qed.
 
-Definition row2 {A B} (f : vec3 R -> vec3 R -> A) (g : A -> B) (x y : option (vec3 R)) : option B :=
-  match x, y with Some p, Some r => Some (g (f p r)) | _, _ => None end.
-
 Lemma stacked_is_rowwise pl ps qs starts segvs pops nrms k :
   nth_error (fst (line_xsections ROps pl ps qs)) k = row2 (line_xsection ROps pl) (fun x => x) (nth_error ps k) (nth_error qs k) /\
   nth_error (snd (line_xsections ROps pl ps qs)) k = row2 (line_xsection ROps pl) is_some (nth_error ps k) (nth_error qs k) /\
@@ -304,15 +291,6 @@ Proof.
   - rewrite (proj2 (sign_neg pl a)) by exact Ha. rewrite (proj2 (sign_neg pl b)) by exact Hb. reflexivity.
 Qed.
 
-(* ---- Polyline.intersect_plane: every length ----------------------------------------------------------
-   What running Plane.line_segment_xsection on every edge, in order, and keeping the hits would report. *)
-Definition cons_xhit (pl : plane R) (i : nat) (ab : vec3 R * vec3 R) (rest : list (nat * option (vec3 R))) :=
-  match line_segment_xsection ROps pl (fst ab) (snd ab) with Some p => (i, Some p) :: rest | None => rest end.
-Fixpoint edgewise_from (pl : plane R) (i : nat) (segs : list (vec3 R * vec3 R)) : list (nat * option (vec3 R)) :=
-  match segs with [] => [] | ab :: r => cons_xhit pl i ab (edgewise_from pl (S i) r) end.
-
-Definition off_plane (pl : plane R) (v : vec3 R) : Prop := sd pl v <> 0.
-
 Lemma hits_edgewise pl segs : forall i,
   Forall (fun ab => off_plane pl (fst ab) /\ off_plane pl (snd ab)) segs ->
   hits_from ROps pl i segs = edgewise_from pl i segs.
@@ -360,6 +338,25 @@ Lemma intersect_plane_edgewise pl poly : Forall (off_plane pl) (pv poly) ->
   intersect_plane_hits ROps pl poly = edgewise_from pl 0 (segments poly).
 Proof. intros H. apply hits_edgewise, segments_off_plane, H. Qed.
 
+(* the same, said directly: exactly the crossing edges, each with its crossing point *)
+Lemma hits_crossings pl segs : forall i,
+  Forall (fun ab => off_plane pl (fst ab) /\ off_plane pl (snd ab)) segs ->
+  hits_from ROps pl i segs = crossings_from pl i segs.
+Proof.
+  induction segs as [|[a b] r IH]; intros i HF; [reflexivity|].
+  inversion HF as [|? ? [Ha Hb] Hr]; subst. cbn [hits_from crossings_from fst snd] in *.
+  rewrite IH by exact Hr. unfold cons_hit, cons_crossing, off_plane in *. cbn [fst snd] in *.
+  destruct (Rltb_spec (sd pl a * sd pl b) 0) as [Hc|Hs].
+  - destruct (edge_cross pl a b Hc) as [-> ->]. reflexivity.
+  - assert (Hs' : 0 < sd pl a * sd pl b).
+    { destruct (Rtotal_order (sd pl a * sd pl b) 0) as [?|[E|?]]; [lra| |lra].
+      apply Rmult_integral in E. destruct E; contradiction. }
+    rewrite edge_same_side by exact Hs'. reflexivity.
+Qed.
+Lemma intersect_plane_crossings pl poly : Forall (off_plane pl) (pv poly) ->
+  intersect_plane_hits ROps pl poly = crossings_from pl 0 (segments poly).
+Proof. intros H. apply hits_crossings, segments_off_plane, H. Qed.
+
 (* edge indices ascend and are edge numbers, whatever the input *)
 Lemma hits_from_lb pl segs : forall i k r, In (k, r) (hits_from ROps pl i segs) ->
   (i <= k)%nat /\ exists a b, nth_error segs (k - i) = Some (a, b) /\ edge_selected ROps pl a b = true /\ r = edge_point ROps pl a b.
@@ -388,9 +385,31 @@ Proof.
   split; [apply hits_from_sorted|]. intros k r H. apply hits_from_lb in H. rewrite Nat.sub_0_r in H. apply H.
 Qed.
 
-(* ---- the four routines on one segment --------------------------------------------------------------- *)
-Definition seg_poly (a b : vec3 R) : polyline R := MkPolyline [a; b] false.
+(* every selected edge is reported, whatever happens on the other edges *)
+Lemma hits_from_complete pl segs : forall i k a b,
+  nth_error segs k = Some (a, b) -> edge_selected ROps pl a b = true ->
+  In ((i + k)%nat, edge_point ROps pl a b) (hits_from ROps pl i segs).
+Proof.
+  induction segs as [|[a' b'] t IH]; intros i k a b Hn Hs; [destruct k; discriminate|].
+  cbn [hits_from]. unfold cons_hit. cbn [fst snd]. destruct k as [|k].
+  - cbn in Hn. injection Hn as -> ->. rewrite Hs. rewrite Nat.add_0_r. left. reflexivity.
+  - cbn in Hn. replace (i + S k)%nat with (S i + k)%nat by lia.
+    destruct (edge_selected ROps pl a' b'); [right|]; apply IH; assumption.
+Qed.
+(* per edge, for every polyline (vertices of OTHER edges may lie on the plane): a strictly crossing edge is reported with
+   its index and crossing point; an edge whose ends are strictly on the same side is not reported *)
+Lemma intersect_plane_per_edge pl poly k a b : nth_error (segments poly) k = Some (a, b) ->
+  (sd pl a * sd pl b < 0 -> In (k, Some (crossing pl a b)) (intersect_plane_hits ROps pl poly)) /\
+  (0 < sd pl a * sd pl b -> forall r, ~ In (k, r) (intersect_plane_hits ROps pl poly)).
+Proof.
+  intros Hn. split.
+  - intros H. destruct (edge_cross pl a b H) as [Hs Hp]. rewrite <- Hp.
+    apply (hits_from_complete pl (segments poly) 0 k a b Hn Hs).
+  - intros H r Hin. apply hits_from_lb in Hin. rewrite Nat.sub_0_r in Hin. destruct Hin as [_ (a' & b' & Hn' & Hs & _)].
+    rewrite Hn in Hn'. injection Hn' as <- <-. rewrite edge_same_side in Hs by exact H. discriminate.
+Qed.
 
+(* ---- the four routines on one segment --------------------------------------------------------------- *)
 Lemma four_routines_agree pl a b : sd pl a * sd pl b < 0 ->
   line_segment_xsection ROps pl a b = Some (crossing pl a b) /\
   line_segment_xsections ROps pl [a] [b] = ([Some (crossing pl a b)], [true]) /\
